@@ -6,11 +6,13 @@ CONSTANTS
   XtModes = {"text"}
   IoPx = {FALSE}
   Ops = {"cell", "memo"}
+  Faults = {"kbd"}
   Variant = "code"
 INVARIANT TypeOK
 INVARIANT CellFresh
 INVARIANT RatioFresh
 INVARIANT FixedSnapshot
 INVARIANT MemoFresh
+INVARIANT FaultFresh
 INVARIANT BodyOnce
 CHECK_DEADLOCK FALSE
